@@ -558,6 +558,46 @@ theorem out_err_sim {P : Nat} {h1 h2 : HState} (hh : HS P h1 h2) (f : Out → Ou
     exact ⟨⟨a, hh.stopOnFail, hh.result, hh.done⟩, hst.trans b⟩
   · exact ⟨⟨hs, hh.stopOnFail, hh.result, hh.done⟩, hst⟩
 
+/-! ## the library's own handlers -/
+
+/-- what a handler that reads no parameter does to the context (`Lemmas.Builtin.runBuiltin_pure`) -/
+def pureBuiltin (b : Builtin) (c : Ctx) : Ctx :=
+  { c with regs := Lemmas.Builtin.bRegs c.regs b, eq := Lemmas.Builtin.bEq c.eq b,
+           out := Lemmas.Builtin.bOut c.regs c.eq b c.out, events := c.events ++ Lemmas.Builtin.bEvs c.regs b }
+
+theorem loc_pureBuiltin (b : Builtin) : Loc (pureBuiltin b) :=
+  ⟨⟨fun _ => rfl, fun _ => rfl, fun r => Lemmas.Builtin.bEvs r.regs b, fun _ => rfl⟩, fun _ => ⟨rfl, rfl, rfl, rfl⟩⟩
+
+theorem loc_regStep (op : Regs.Op) : Loc (fun c => regStep c op) :=
+  ⟨⟨fun _ => rfl, fun _ => rfl, fun _ => [], fun _ => by simp [regStep]⟩, fun _ => ⟨rfl, rfl, rfl, rfl⟩⟩
+
+theorem runBuiltin_sim {P : Nat} {c1 c2 : Ctx} (h : Sim P c1 c2) (b : Builtin) :
+    RR P c1 c2 (runBuiltin c1 b) (runBuiltin c2 b) := by
+  cases hp : Lemmas.Builtin.paramReg b with
+  | none =>
+    rw [Lemmas.Builtin.runBuiltin_pure c1 b hp, Lemmas.Builtin.runBuiltin_pure c2 b hp]
+    obtain ⟨a, b'⟩ := h.map (loc_pureBuiltin b)
+    exact ⟨a, b', rfl⟩
+  | some pr =>
+    obtain ⟨reg, strict⟩ := pr
+    rw [Lemmas.Builtin.runBuiltin_param c1 b reg strict hp, Lemmas.Builtin.runBuiltin_param c2 b reg strict hp,
+      Lemmas.Builtin.regFromParam_eq, Lemmas.Builtin.regFromParam_eq]
+    have hpi := paramInt_sim h 32 true true
+    generalize paramInt c1 32 true true = x1 at hpi
+    generalize paramInt c2 32 true true = x2 at hpi
+    obtain ⟨d1, ok1, v1⟩ := x1
+    obtain ⟨d2, ok2, v2⟩ := x2
+    obtain ⟨hs, hst, hv⟩ := hpi
+    simp only [Prod.mk.injEq] at hv
+    obtain ⟨hv1, hv2⟩ := hv
+    subst hv1
+    subst hv2
+    dsimp only at hs hst ⊢
+    cases ok1
+    · exact ⟨hs, hst, rfl⟩
+    · obtain ⟨a, b'⟩ := hs.map (loc_regStep (.set reg (Regs.bv v1)))
+      exact ⟨a, hst.trans b', rfl⟩
+
 theorem runOp_sim {P : Nat} {h1 h2 : HState} (hh : HS P h1 h2) (op : SOp) :
     HR P h1 h2 (runOp h1 op) (runOp h2 op) := by
   unfold runOp
@@ -612,6 +652,12 @@ theorem runOp_sim {P : Nat} {h1 h2 : HState} (hh : HS P h1 h2) (op : SOp) :
       · exact ⟨hh, Step.refl _ _⟩
     case onFail s => exact ⟨⟨hh.sim, rfl, hh.result, hh.done⟩, Step.refl _ _⟩
     case ret ok => exact ⟨⟨hh.sim, hh.stopOnFail, rfl, rfl⟩, Step.refl _ _⟩
+    case builtin b =>
+      obtain ⟨hs, hst, hv⟩ := runBuiltin_sim hh.sim b
+      rw [← hv]
+      split
+      · exact ⟨⟨hs, hh.stopOnFail, hh.result, hh.done⟩, hst⟩
+      · exact ⟨⟨hs, hh.stopOnFail, rfl, rfl⟩, hst⟩
 
 theorem foldl_runOp_sim {P : Nat} (s : List SOp) : ∀ {h1 h2 : HState}, HS P h1 h2 →
     HR P h1 h2 (s.foldl runOp h1) (s.foldl runOp h2) := by
